@@ -1,5 +1,5 @@
 SPECIFICATION Spec
 CONSTANTS
   NMax = 40
-INVARIANTS Inv_Covered Inv_Local Emit
+INVARIANTS Inv_Covered Inv_Local Inv_Rounding Emit
 CHECK_DEADLOCK FALSE
